@@ -192,7 +192,7 @@ fn typed_sync(ctx: &mut sync::Context, op: &TypedOp) -> String {
     fn m<T>(r: tokio_modbus::Result<T>, f: impl Fn(&T) -> String) -> String {
         match r {
             Ok(Ok(v)) => format!("ok {}", f(&v)),
-            Ok(Err(e)) => format!("exc {}", hex8(e.into())),
+            Ok(Err(e)) => format!("exc {}", hex8(crate::wire::ex_num(e))),
             Err(e) => crate::wire::error(&e),
         }
     }
@@ -219,7 +219,7 @@ fn typed_async(rt: &tokio::runtime::Runtime, ctx: &mut tokio_modbus::client::Con
     fn m<T>(r: tokio_modbus::Result<T>, f: impl Fn(&T) -> String) -> String {
         match r {
             Ok(Ok(v)) => format!("ok {}", f(&v)),
-            Ok(Err(e)) => format!("exc {}", hex8(e.into())),
+            Ok(Err(e)) => format!("exc {}", hex8(crate::wire::ex_num(e))),
             Err(e) => crate::wire::error(&e),
         }
     }
